@@ -1208,6 +1208,27 @@ class ExprMixin:
     EAGER_CONSUMERS = {'list', 'tuple', 'set', 'frozenset', 'dict', 'sum', 'min', 'max', 'any', 'all', 'sorted', 'bytes', 'bytearray'}
     EAGER_METHODS = {'join', 'update', 'extend', 'writerows', 'write_many', 'writelines'}
 
+    PURE_CALLS = {'len', 'int', 'str', 'format', 'ord', 'chr', 'bytes', 'hex', 'abs', 'min', 'max', 'repr', 'bool', 'tuple'}
+    PURE_METHODS = {'startswith', 'endswith', 'upper', 'lower', 'zfill', 'rjust', 'ljust', 'decode', 'encode', 'get', 'strip',
+                    'isdigit', 'isnumeric', 'isdecimal', 'format', 'join', 'hex', 'to_bytes', 'index', 'find', 'count'}
+
+    def _pure_element(self, node):
+        """the element and the filters of a generator expression only compute (no calls that could have effects): evaluating
+        them when the expression is created or when it is consumed makes no difference"""
+        parts = [node.elt] + [c for g in node.generators for c in g.ifs]
+        for part in parts:
+            for n in ast.walk(part):
+                if isinstance(n, ast.Call):
+                    f = n.func
+                    if isinstance(f, ast.Name) and f.id in self.PURE_CALLS:
+                        continue
+                    if isinstance(f, ast.Attribute) and f.attr in self.PURE_METHODS:
+                        continue
+                    return False
+                if isinstance(n, (ast.Yield, ast.YieldFrom, ast.Await, ast.NamedExpr)):
+                    return False
+        return True
+
     def _consumed_at_once(self, node):
         """a generator expression written directly as the argument of a call that iterates it to the end"""
         par = getattr(node, '_parent', None)
@@ -1223,9 +1244,15 @@ class ExprMixin:
             # the first iterable is evaluated (once) in the enclosing scope, as Python does
             first_iter = self.eval(node.generators[0].iter)
             g0 = self.resolve(first_iter)
+            if isinstance(g0, DictV) and not isinstance(g0, PyLit) and not g0.open and not g0.sym_stores and g0.default is None \
+                    and getattr(g0, 'comp', None) is None and (len(g0.items) <= 16 or getattr(g0, 'exact_ok', False)):
+                # iterating a fully known dictionary: its keys
+                keys_ = ListV(items=[self.from_py(k) for k in g0.items])
+                keys_.exact_ok = bool(getattr(g0, 'exact_ok', False))
+                g0 = first_iter = keys_
             if len(node.generators) == 1 and not node.generators[0].is_async and \
                     (kind != 'gen' or isinstance(node.generators[0].iter, (ast.Name, ast.Attribute, ast.Tuple, ast.List))
-                     or self._const_range(node.generators[0].iter)):
+                     or self._const_range(node.generators[0].iter) or self._pure_element(node)):
                 # a small concrete collection (a literal, the items of a fully known dictionary): one exact evaluation per item
                 if isinstance(g0, (TupleV, ListV)) and g0.items is not None and (len(g0.items) <= 16 or getattr(g0, 'exact_ok', False)) \
                         and not getattr(g0, 'loop_open', False):
